@@ -10,6 +10,7 @@ mod ir;
 mod ops;
 mod runner;
 mod safe_print;
+mod selftest;
 mod stub;
 mod tff;
 
@@ -41,6 +42,10 @@ fn main() {
         .map(|n| n as u64)
         .unwrap_or(20260925);
     match args[1].as_str() {
+        "selftest" => {
+            let scale = args.get(2).and_then(|x| x.parse().ok()).unwrap_or(1);
+            std::process::exit(selftest::main(scale));
+        }
         "list" => {
             for id in checks::ALL {
                 println!("{id}");
